@@ -89,6 +89,9 @@ def eval_block(block, acc):
         _, ring, b = block
         cfgs = full_configs() if ring == "full" else RINGS[ring]
         it = streams.iter_block(tuple(b) if b[0] == "short" else ("pre", b[1], b[2]))
+    elif kind == "long":
+        cfgs = COVER
+        it = (streams.seq_bytes(sq) for sq in streams.long_seqs(streams.LONG_NEIGHBOURS + ["fb562", "fd300"]))
     else:  # tokens
         _, ring, first, k, alphabet = block
         cfgs = full_configs() if ring == "full" else RINGS[ring]
@@ -132,6 +135,7 @@ def run_tier(tier, t0):
     for first in alphabet:
         blocks.append(("tokens", "cover", first, k, alphabet))
     blocks = [b for b in blocks if b[0] != "tokens0"]
+    blocks.append(("long",))
     acc = engine.sweep(blocks, eval_block)
     engine.finish(
         PROP, tier, acc, t0, replay_case,
